@@ -39,23 +39,23 @@ type CommitOp struct {
 }
 
 type Inject struct {
-	Op    int    `json:"op"`   // I/O operation number (1-based) of the whole run
-	Kind  string `json:"kind"` // kill | power | err | short
+	Op    int    `json:"op"`              // I/O operation number (1-based) of the whole run
+	Kind  string `json:"kind"`            // kill | power | err | short
 	Power string `json:"power,omitempty"` // none | all | rand : how much un-synced state survives
 }
 
 type Cfg struct {
-	Sim       simrt.Config  `json:"sim"`
-	YAML      bool          `json:"yaml"` // package offset (journalctl/dmesg path) instead of the file input's offsetDB
-	Sync      bool          `json:"sync_mode"`
-	Interval  time.Duration `json:"async_interval"`
-	Jobs      []JobCfg      `json:"jobs"`
-	Commits   [][]CommitOp  `json:"commits"`
-	Enumerate bool          `json:"enumerate"`
-	Inject    *Inject       `json:"inject,omitempty"`
-	RandomFaults bool       `json:"random_faults,omitempty"`
-	FinalKill string        `json:"final_kill,omitempty"` // "", kill, power-none, power-all, power-rand at a seeded instant
-	KillAt    time.Duration `json:"kill_at,omitempty"`
+	Sim          simrt.Config  `json:"sim"`
+	YAML         bool          `json:"yaml"` // package offset (journalctl/dmesg path) instead of the file input's offsetDB
+	Sync         bool          `json:"sync_mode"`
+	Interval     time.Duration `json:"async_interval"`
+	Jobs         []JobCfg      `json:"jobs"`
+	Commits      [][]CommitOp  `json:"commits"`
+	Enumerate    bool          `json:"enumerate"`
+	Inject       *Inject       `json:"inject,omitempty"`
+	RandomFaults bool          `json:"random_faults,omitempty"`
+	FinalKill    string        `json:"final_kill,omitempty"` // "", kill, power-none, power-all, power-rand at a seeded instant
+	KillAt       time.Duration `json:"kill_at,omitempty"`
 }
 
 func (c *Cfg) SimCfg() *simrt.Config { return &c.Sim }
@@ -186,27 +186,27 @@ type key struct {
 }
 
 type scen struct {
-	cfg      *Cfg
-	inj      *Inject
-	o        *core.Outcome
-	started  map[key][]int64 // every value whose commit call has started
-	done     map[key]int64   // latest value whose commit call has returned
-	lower    map[key]int64   // state at the start of the last successful, completed save
-	saveSnap map[key]int64   // snapshot taken at the create of the save in progress
-	saveBad  bool            // a fault was injected into the save in progress
-	saves    int
-	goodSaves int
-	ops      int
-	opKinds  []string
-	injected bool
-	crashed  bool
+	cfg           *Cfg
+	inj           *Inject
+	o             *core.Outcome
+	started       map[key][]int64 // every value whose commit call has started
+	done          map[key]int64   // latest value whose commit call has returned
+	lower         map[key]int64   // state at the start of the last successful, completed save
+	saveSnap      map[key]int64   // snapshot taken at the create of the save in progress
+	saveBad       bool            // a fault was injected into the save in progress
+	saves         int
+	goodSaves     int
+	ops           int
+	opKinds       []string
+	injected      bool
+	crashed       bool
 	injectedKinds map[string]int
-	recs       []*saveRec      // every save that began: what a complete snapshot of it may contain
-	curRec     *saveRec
-	pendingDur map[key]int64
-	powerLost  bool
-	lastSync   int
-	durLower   map[key]int64   // lower bound that also survives power loss (rename made durable by a later fsync)
+	recs          []*saveRec // every save that began: what a complete snapshot of it may contain
+	curRec        *saveRec
+	pendingDur    map[key]int64
+	powerLost     bool
+	lastSync      int
+	durLower      map[key]int64 // lower bound that also survives power loss (rename made durable by a later fsync)
 }
 
 type saveRec struct {
@@ -609,7 +609,9 @@ func (s *scen) check(fs *simos.FS) {
 	for k := range lower {
 		ks = append(ks, k)
 	}
-	sort.Slice(ks, func(i, j int) bool { return ks[i].src < ks[j].src || (ks[i].src == ks[j].src && ks[i].stream < ks[j].stream) })
+	sort.Slice(ks, func(i, j int) bool {
+		return ks[i].src < ks[j].src || (ks[i].src == ks[j].src && ks[i].stream < ks[j].stream)
+	})
 	for _, k := range ks {
 		want := lower[k]
 		got, has := loaded[k]
